@@ -12,7 +12,7 @@ CONSTANTS
   InitSets <- None
   MaxMsgs = 1
   MaxLen = 3
-  Dev <- AllDev
-  Store = "dict"
+  AllOpen <- AllKnown
+  Stores = {"pp", "fs"}
 INVARIANT TypeOK
 CHECK_DEADLOCK FALSE
